@@ -30,6 +30,8 @@ inductive Err
   | invalid         -- *geojson.InvalidGeometryError (explicit panic in doFromGeoJSON & helpers, recovered)
   | unmarshalType   -- *json.UnmarshalTypeError (document not an object, "type" not a string)
   | nilDeref        -- runtime error recovered by FromGeoJSON (nil *Geometry); it is an `error`, so no re-panic
+  | panicNil        -- a runtime panic that ESCAPES the call: ToGeoJSON/Encode of the nil interface value
+                    -- (`reflect.TypeOf(nil)` is a nil `reflect.Type`; `.String()` on it dereferences nil); nothing recovers it
 deriving DecidableEq, Repr, Inhabited
 
 variable {F : Type}
@@ -71,7 +73,7 @@ def toGeoJSON : Geom F → Except Err (Geometry F)
   | .multiPolygon ps => .ok ⟨"MultiPolygon", .c4 (pointsssCoordinates ps)⟩
   | .collection _ => .error .unsupported
   | .bounds _ _ => .error .unsupported
-  | .nil => .error .unsupported   -- (Go: reflect.TypeOf(nil).String() panics; nil is not a geometry type)
+  | .nil => .error .panicNil      -- reflect.TypeOf(nil).String() panics (nil is not a geometry type; outside C06)
 
 section
 variable (fin : F → Bool)
@@ -211,6 +213,12 @@ def fromGeoJSON (ty : String) (c : Tree F) : Except Err (Geom F) :=
       if c000.length = 2 then do let r ← mapE makeLinearRings cs; pure (.multiPolygon r)
       else .error .invalid
   else .error .unsupported
+
+/-- `FromGeoJSON` on a possibly nil `*Geometry`: `g.Type` dereferences nil, the runtime error is recovered
+and, being an `error`, returned -/
+def fromGeoJSONPtr : Option (String × Tree F) → Except Err (Geom F)
+  | none => .error .nilDeref
+  | some (ty, c) => fromGeoJSON ty c
 
 /-- `Decode` up to number text: `json.Unmarshal` then `FromGeoJSON` -/
 def fromTree (t : Tree F) : Except Err (Geom F) := do
